@@ -53,6 +53,12 @@ def run(ctx):
     for a in assume.values():
         for s2 in a.get("alt_sigs", []):
             by_sig.setdefault(s2, a)
+    # sites that state the very fact of an assumption a second time (an assertion in front of the access it protects)
+    by_also = {}
+    for a in assume.values():
+        for s2 in a.get("also_sigs", []):
+            by_also.setdefault(s2, a)
+    also_used = set()
     sig_used = {}
     counts = {"discharged": 0, "assumed": 0, "constant": 0, "failed": 0}
     used = set()
@@ -80,6 +86,10 @@ def run(ctx):
             if a2 is not None and sig_used.get(a2["key"], 0) < a2.get("count", 1) and a2["key"] not in obs:
                 sig_used[a2["key"]] = sig_used.get(a2["key"], 0) + 1
                 a = a2
+            a3 = by_also.get(getattr(o, "sig", None))
+            if a is None and a3 is not None and (a3["key"], o.sig) not in also_used:
+                also_used.add((a3["key"], o.sig))
+                a = a3
         if a is not None:
             key_ = key
             key = a["key"]
